@@ -136,11 +136,22 @@ class Check(PropertyCheck):
                     return frac(Fraction(int(round(k)), n * n))
             return frac(Fraction(v))
         member = None
-        if n == 1 and m.data.size <= 40000:
-            # the property's own wording: pixel (ix, iy) is 1 exactly when the pixel centre is a member
+        if 1 <= n <= 5 and m.data.size * n * n <= 40000:
+            # the property's own wording: pixel (ix, iy) is 1 exactly when the pixel centre is a member; with n x n
+            # sub-samples the value is the fraction of sub-sample centres that are members (of contains())
             from regions import PixCoord
             yy, xx = np.mgrid[int(b.iymin):int(b.iymax), int(b.ixmin):int(b.ixmax)]
-            member = np.asarray(reg.contains(PixCoord(xx, yy)), dtype=int).tolist() if xx.size else []
+            if xx.size:
+                cnt = np.zeros(xx.shape, dtype=int)
+                for a in range(n):
+                    for kk in range(n):
+                        # the same rational positions the oracle uses, rounded once to double
+                        ox = float(Fraction(2 * a + 1, 2 * n) - Fraction(1, 2))
+                        oy = float(Fraction(2 * kk + 1, 2 * n) - Fraction(1, 2))
+                        cnt += np.asarray(reg.contains(PixCoord(xx + ox, yy + oy)), dtype=int)
+                member = cnt.tolist()
+            else:
+                member = []
         return {'member': member,
                 'bbox': [int(b.ixmin), int(b.ixmax), int(b.iymin), int(b.iymax)],
                 'bbox_same': [int(rb.ixmin), int(rb.ixmax), int(rb.iymin), int(rb.iymax)] == [int(b.ixmin), int(b.ixmax), int(b.iymin), int(b.iymax)],
@@ -272,12 +283,14 @@ class Check(PropertyCheck):
                 if n == 1 and Fraction(rv) not in (0, 1):
                     bad('center_mask_not_binary', f'{rv}')
                     return V
-                if n == 1 and real.get('member') is not None and bnd == 0 and inner_included(d):
-                    # the mask against the region's own contains() at the pixel centre (masks are those of the
+                if real.get('member') is not None and bnd == 0 and inner_included(d):
+                    # the mask against the region's own contains() at the sample centres (masks are those of the
                     # INCLUDED region: the top-level flag is undone; compounds with an excluded operand are skipped)
-                    mem = bool(real['member'][j][i]) == G.truthy(d.get('include', 'absent'))
-                    if mem != (Fraction(rv) == 1):
-                        bad('mask_differs_from_contains', f'pixel ({box[0] + i},{box[2] + j}) mask {rv} contains {real["member"][j][i]}')
+                    mc = real['member'][j][i]
+                    if not G.truthy(d.get('include', 'absent')):
+                        mc = n * n - mc
+                    if mc != v:
+                        bad('mask_differs_from_contains', f'pixel ({box[0] + i},{box[2] + j}) mask {rv} = {v}/{n * n}, contains() counts {mc}')
                         return V
         return V
 
